@@ -134,14 +134,30 @@ impl Git {
             envs.push(("GIT_CONFIG_NOSYSTEM", "1"));
         }
         #[cfg(gothenburgbitfactory_taskchampion_verif)]
-        crate::server::verif_failpoint::hit("fp.git.before_command")?;
+        crate::server::verif_failpoint::hit(match args.first().copied() {
+            Some("add") => "fp.git.before.add",
+            Some("commit") => "fp.git.before.commit",
+            Some("push") => "fp.git.before.push",
+            Some("reset") => "fp.git.before.reset",
+            Some("fetch") => "fp.git.before.fetch",
+            Some("clean") => "fp.git.before.clean",
+            _ => "fp.git.before.other",
+        })?;
         let output = Command::new(&self.path)
             .envs(envs)
             .args(args)
             .current_dir(dir)
             .output()?;
         #[cfg(gothenburgbitfactory_taskchampion_verif)]
-        crate::server::verif_failpoint::hit("fp.git.after_command")?;
+        crate::server::verif_failpoint::hit(match args.first().copied() {
+            Some("add") => "fp.git.after.add",
+            Some("commit") => "fp.git.after.commit",
+            Some("push") => "fp.git.after.push",
+            Some("reset") => "fp.git.after.reset",
+            Some("fetch") => "fp.git.after.fetch",
+            Some("clean") => "fp.git.after.clean",
+            _ => "fp.git.after.other",
+        })?;
         let stdout = String::from_utf8_lossy(&output.stdout);
         let stderr = String::from_utf8_lossy(&output.stderr);
         if !stdout.is_empty() {
